@@ -1156,6 +1156,11 @@ func (h *hist) step(line string) (out string) {
 		case "setcoef":
 			r := a.SetCoef(i64(a1), h.es[regNum(a2)])
 			return ret(r == a, h.showU(r))
+		case "setcoefp":
+			// the exported SetCoefPtr with a fresh copy of the element (its documented pointer semantics then cannot
+			// matter): must behave exactly like SetCoef
+			r := a.SetCoefPtr(i64(a1), h.es[regNum(a2)].Copy())
+			return ret(r == a, h.showU(r))
 		case "inc":
 			a.IncrementCoef(i64(a1), h.es[regNum(a2)])
 			return ret(true, h.showU(a))
@@ -1202,6 +1207,9 @@ func (h *hist) step(line string) (out string) {
 			return ret(r == a, h.showB(r))
 		case "setcoef":
 			a.SetCoef(parseDeg(a1), h.es[regNum(a2)])
+			return ret(true, h.showB(a))
+		case "setcoefp":
+			a.SetCoefPtr(parseDeg(a1), h.es[regNum(a2)].Copy())
 			return ret(true, h.showB(a))
 		case "inc":
 			a.IncrementCoef(parseDeg(a1), h.es[regNum(a2)])
